@@ -55,7 +55,9 @@ def gen_c10_modal(rnd, sid):
 def generate(rnd, tier):
     n = 500 if tier == "quick" else 6000
     sid = SidCounter()
-    cases = [gen_c10_modal(rnd, sid) for _ in range(n // 10)] + [gen_c10(rnd, sid) for _ in range(n)] + [gen_case(rnd, "loop", sid) for _ in range(n // 2)] + [gen_case(rnd, "app", sid) for _ in range(n // 4)]
+    cases = [gen_c10_modal(rnd, sid) for _ in range(n // 10)] + [gen_c10(rnd, sid) for _ in range(n)]
+    for c in cases[n // 10::4]: c["glib_nb"] = True          # every fourth of these programs also runs on the real GLib-based loop (over the stand-in)
+    cases = cases + [gen_case(rnd, "loop", sid) for _ in range(n // 2)] + [gen_case(rnd, "app", sid) for _ in range(n // 4)]
     if tier == "thorough":
         from harness.gen.exhaustive import loop_programs
         cases += list(loop_programs(sid))          # small-scope exhaustive: 3 663 programs
@@ -128,6 +130,31 @@ def monitor(case, obs):
 
 def nontrivial(case, obs):
     return any(ev[0] == "api<" and ev[1] == "proc" for ev, ctx in obs["xlog"])
+
+
+# ---- the non-waiting form on the GLib-based loop too (the clause "never blocks on an empty queue" is that loop's as well; the other clauses differ there: G4)
+_c10_run_impl, _c10_monitor = run_impl, monitor
+
+
+def run_impl(case):
+    obs = _c10_run_impl(case)
+    if case.get("glib_nb"):
+        from harness.impl.app import run_real
+        try:
+            o, log, out = run_real(case, "glib")
+            obs["glib"] = {"outcome": norm_outcome(json.loads(json.dumps(o))), "log": json.loads(json.dumps(log)), "xlog": json.loads(json.dumps(run_real.xlog, default=str))}
+        except BaseException as e:
+            if type(e).__name__ == "CaseTimeout": raise
+            obs["glib"] = {"outcome": ["crash", repr(e)], "log": [], "xlog": []}
+    return obs
+
+
+def monitor(case, obs):
+    v = _c10_monitor(case, obs)
+    if v is None and isinstance(obs.get("glib"), dict) and obs["glib"]["outcome"][0] == "blocked":
+        g = _c10_monitor(dict(case, mode="c10"), obs["glib"])
+        if g and "non-waiting process_signals() blocked" in g: return "GLibEventLoop: " + g
+    return v
 
 
 LEAN_MODULES = ["C10", "C10b"]
